@@ -111,6 +111,24 @@ func main() {
 		{"C19 C04", []string{"clover.DB.ExportCollection", "clover.DB.ImportCollection", "clover..restoreExpiresAt", "clover.DB.createCollectionWith", "clover.DB.CreateCollectionByQuery"}},
 		{"C05", []string{"badger..Open", "badger..OpenWithOptions", "bbolt..Open", "bbolt.boltStore.createRootBucketIfNotExists", "bbolt.boltStore.Close", "badger.badgerStore.Close",
 			"clover..Open", "clover..OpenWithStore", "clover.DB.Close"}},
+		// the small helpers the functions above lean on (accessors, constructors, conversions): pinned with the property
+		// whose model inlines them, so that no function of the packages read is outside every model
+		{"C10", []string{"internal..asSlice", "internal..TypeName", "util..IsNumber", "util..ToFloat64", "util..ToInt64", "util..BoolToInt"}},
+		{"C18", []string{"internal..renameValue"}},
+		{"C11", []string{"internal..init"}},
+		{"C08", []string{"clover.planNodeBase.CallNext", "clover.planNodeBase.Callback", "clover.planNodeBase.Finish", "clover.planNodeBase.NextNode", "clover.planNodeBase.SetNext",
+			"query.Query.Collection", "query.Query.Criteria", "query.Query.GetLimit", "query.Query.GetSkip", "query.Query.SortOptions"}},
+		{"C02", []string{"clover..NewFieldRangeVisitor", "query.BinaryCriteria.Accept", "query.NotCriteria.Accept", "query.UnaryCriteria.Accept", "util..StringSliceToSet"}},
+		{"C12", []string{"clover..NewObjectId", "document..NewDocument", "document.Document.ExpiresAt", "document.Document.SetExpiresAt", "document.Document.TTL"}},
+		{"C13", []string{"clover..getCollectionKey", "clover..getCollectionKeyPrefix", "clover..getDocumentKey", "clover..getDocumentKeyPrefix"}},
+		{"C14", []string{"index..CreateIndex", "index.indexBase.Collection", "index.indexBase.Field", "index.rangeIndex.Type"}},
+		{"C17", []string{"index..extractDocId"}},
+		{"C05", []string{"badger.badgerStore.startGC", "badger.badgerStore.stopGC"}},
+		// C07: where the lock/snapshot discipline of the protocol theorem is established - bbolt's own writer lock behind
+		// Begin(true), and the badger adapter's writer lock (F43) taken in Begin and released by Commit / Rollback
+		{"C07", []string{"badger.badgerStore.Begin", "badger.badgerTx.Commit", "badger.badgerTx.Rollback", "badger.badgerTx.done",
+			"bbolt.boltStore.Begin", "bbolt.boltTx.Commit", "bbolt.boltTx.Rollback", "clover.DB.Close", "clover..Open", "clover..OpenWithStore"}},
+		{"C15", []string{"badger.badgerTx.done"}},
 		{"C15", []string{"bbolt.boltTx.Set", "bbolt.boltTx.Get", "bbolt.boltTx.Delete", "bbolt.boltTx.Cursor", "bbolt.boltTx.Commit", "bbolt.boltTx.Rollback", "bbolt.boltTx.bucket", "bbolt.boltStore.Begin",
 			"bbolt.boltCursor.Seek", "bbolt.boltCursor.adjustSeek", "bbolt.boltCursor.Next", "bbolt.boltCursor.Valid", "bbolt.boltCursor.Item", "bbolt.boltCursor.Close",
 			"badger.badgerTx.Set", "badger..getItemValue", "badger.badgerTx.Get", "badger.badgerTx.Commit", "badger.badgerTx.Rollback", "badger.badgerTx.Cursor", "badger.badgerStore.Begin",
@@ -399,7 +417,7 @@ func main() {
 	strList("receiverWrites", "assignments through a method receiver (all packages)", recvWrites)
 	sort.Strings(layout)
 	strList("keyLayout", "the functions that define the key layout, the type ranks and the key encoding dispatch, statement by statement", layout)
-	for _, prop := range []string{"C01", "C02", "C03", "C04", "C05", "C06", "C08", "C09", "C10", "C11", "C12", "C13", "C14", "C15", "C16", "C17", "C18", "C19"} {
+	for _, prop := range []string{"C01", "C02", "C03", "C04", "C05", "C06", "C07", "C08", "C09", "C10", "C11", "C12", "C13", "C14", "C15", "C16", "C17", "C18", "C19"} {
 		sort.Strings(logic[prop])
 		strList("logic"+prop, "the source text behind "+prop+": full text of the functions its model was transcribed from (comments and layout removed)", logic[prop])
 	}
@@ -410,6 +428,14 @@ func main() {
 		}
 	}
 	sort.Strings(missing)
+	unpinned := []string{}
+	for _, k := range order {
+		if !wanted[k] {
+			unpinned = append(unpinned, k)
+		}
+	}
+	sort.Strings(unpinned)
+	strList("logicUnpinned", "every function of the packages read (tests and hooks aside) whose text no property's model pins", unpinned)
 	strList("logicMissing", "functions the model was transcribed from that the source no longer has (renamed or removed)", missing)
 	sb.WriteString("structure PanicSite where\n  file : String\n  fn : String\n  kind : String\n  expr : String\nderiving DecidableEq, Repr\n\n")
 	sb.WriteString("/-- unchecked type assertions and explicit panics, in source order -/\ndef panicSites : List PanicSite := [")
